@@ -1,4 +1,4 @@
-CONSTANTS NV = 3  MaxPower = 2  Kinds = {"absent","nil","ok","empty","forged","other","nosig","longprice","toomany","nilext","nilsig"}  SignedCorrection = TRUE  Part = "votes"
+CONSTANTS NV = 3  MaxPower = 2  Kinds = {"absent","nil","ok","empty","emptyforged","forged","other","nosig","longprice","toomany","nilext","nilsig"}  SignedCorrection = TRUE  Part = "votes"
 INIT Init
 NEXT Next
 INVARIANTS AcceptOnlyIf EmptyAlwaysOk HonestAccepted MedianInRange Export
